@@ -94,7 +94,66 @@ def parse(doc_json_text, verbose=False):
         return DznJsonAst(doc_json_text, verbose=verbose).process()
 
 
+BOUNDARY_DOC = [['filename', 'Ger\u00e4t.dzn'], ['import', 'pr\u20acis/\U0001d11e.dzn'],
+                ['ns', ['A'], [['extern', 'T', 'std::string /* \u00b5\u2126\U0001f600 */']]],
+                ['interface', 'I', [['enum', 'E', ['On', 'Off']]], [['ev', 'in', ['void'], [['a', ['A', 'T'], 'in']]]]],
+                ['component', 'C', [['p', ['I'], 'provides', False]]], ['filename', 'z\u00fc.dzn']]
+BLOCKS = [512, 1024, 4096, 8192, 16384, 32768, 65536, 131072, 262144, 1 << 20]
+
+
+def boundary_text(block, which, delta):
+    """The document as raw UTF-8 (non-ASCII characters NOT escaped), padded with leading white space so that the
+    which-th non-ASCII character has `delta` of its bytes before the byte offset `block` (it straddles the offset)."""
+    raw = json.dumps(D.to_json(BOUNDARY_DOC), ensure_ascii=False).encode('utf-8')
+    offs = [i for i, b in enumerate(raw) if b >= 0xC0]        # lead bytes of the multi-byte characters
+    if which >= len(offs):
+        return None
+    lead = offs[which]
+    size = 2 if raw[lead] < 0xE0 else (3 if raw[lead] < 0xF0 else 4)
+    if not 0 < delta < size:
+        return None
+    pad = block - delta - lead
+    if pad < 0:
+        return None
+    # white space before the root object and - for the big blocks - spread as indentation-like runs inside it
+    return b' ' * (pad // 2) + b'\n' * (pad - pad // 2) + raw
+
+
+def judge_boundary(case):
+    import os  # pylint: disable=import-outside-toplevel
+    import tempfile  # pylint: disable=import-outside-toplevel
+    from dznpy.json_ast import DznJsonAst  # pylint: disable=import-outside-toplevel
+    data = boundary_text(case['block'], case['which'], case['delta'])
+    want = D.expected(BOUNDARY_DOC)
+    out = []
+    tmp = tempfile.mkdtemp(prefix='vf_c05_')
+    try:
+        path = os.path.join(tmp, 'doc.json')
+        with open(path, 'wb') as fh:
+            fh.write(data)
+        for route in ('load_file', 'bytes', 'str'):
+            try:
+                with contextlib.redirect_stdout(io.StringIO()):
+                    if route == 'load_file':
+                        fct = DznJsonAst().load_file(path).process()
+                    elif route == 'bytes':
+                        fct = DznJsonAst(data).process()
+                    else:
+                        fct = DznJsonAst(data.decode('utf-8')).process()
+                cont, what = D.first_difference(want, D.unparse(fct))
+                if cont:
+                    out.append((f'boundary:{route}:mismatch:{cont}', f'{what} | {case}'))
+            except Exception as exc:  # pylint: disable=broad-except
+                out.append((f'boundary:{route}:exception:{type(exc).__name__}', f'{exc!r} | {case}'))
+    finally:
+        import shutil  # pylint: disable=import-outside-toplevel
+        shutil.rmtree(tmp, ignore_errors=True)
+    return out
+
+
 def judge(case):
+    if 'block' in case:
+        return judge_boundary(case)
     doc = case['doc']
     out = []
     try:
@@ -213,6 +272,22 @@ def work(job):
                         _one(dict(case, form=form), part)
                 if k % 50021 == 1:
                     part.sample(case)
+    elif kind == 'boundary':
+        # SIZE x ENCODING: every multi-byte character of a raw UTF-8 document straddling every usual buffer size
+        for block in BLOCKS[:max_nodes]:
+            for which in range(12):
+                for delta in (1, 2, 3):
+                    k += 1
+                    if k % nslots != idx or boundary_text(block, which, delta) is None:
+                        continue
+                    case = {'block': block, 'which': which, 'delta': delta}
+                    part.evaluations += 1
+                    part.states += 1
+                    part.transitions += 3
+                    part.nontrivial += 1
+                    part.outcome('boundary')
+                    for key, what in judge_boundary(case):
+                        part.violation(key, what, case)
     elif kind == 'payload':
         for doc in payload_docs():
             k += 1
@@ -290,13 +365,14 @@ def explore(ctx):
     max_nodes = 5 if ctx.thorough else 4
     nslots = 64 if ctx.thorough else 16
     jobs = [('forests', i, nslots, max_nodes) for i in range(nslots)] + \
-           [('payload', i, 8, 0) for i in range(8)]
+           [('payload', i, 8, 0) for i in range(8)] + [('boundary', i, 8, len(BLOCKS) if ctx.thorough else 8) for i in range(8)]
     for part in pmap(work, jobs):
         ctx.merge(part)
     ctx.rule = (f'every document shape with <= {max_nodes} nodes (11 leaf kinds, namespaces [A],[B],[A,B],[AB], '
                 'arbitrary nesting and re-opening) x 2 naming sweeps (3 up to 3 nodes: Python keywords / namespace names / case variants), plus the payload space per kind at root and '
                 'inside namespace A.B; each shape generated exactly once; non-trivial = at least one declaration '
-                'expected; transitions = node-append construction steps')
+                'expected; transitions = node-append construction steps; plus a raw UTF-8 document (file, bytes, str) padded so '
+                'that each of its multi-byte characters straddles each usual buffer size (512 B .. 256 KiB, thorough 1 MiB)')
     ctx.bounds = {'nodes': max_nodes, 'payload': 'every combination of ports<=2, events<=2, formals<=2, nested types<=2, '
                                                   'instances<=2, bindings<=2, fields<=3; lists of 3..6 elements with '
                                                   'cycling variants; namespace names and nesting of 3..6 identifiers; '
